@@ -74,6 +74,8 @@ def corr_doc(c, alias_by_id=False):
     cond = c["cond"]
     if cond["kind"] == "ext":
         d["condition"] = uncps(cond["expr"])
+        if c.get("explicit"):  # an explicit rules list next to the extended condition
+            d["rules"] = [ref_text(k) for k in c["refs"]]
     else:
         d["rules"] = [ref_text(k) for k in c["refs"]]
         cd = {cond["op"]: cond["count"] + (0.5 if cond.get("frac") else 0)}
